@@ -42,20 +42,22 @@ class Ctx:
         self.oracle_forks = 0
 
     # ---- oracle: the library itself, alone, cold, on one thread -------------------
-    def _oracle_child(self, call, want_trace):
+    def _oracle_child(self, call, want_trace, gran='line'):
         _limit_memory()
-        seam = engine.Seam(self.root, 'line')
+        seam = engine.Seam(self.root, gran)
         seam.install()
-        return engine.solo_call(self.a5, seam, call, want_trace)
+        return engine.solo_call(self.a5, seam, call, want_trace, cap=3_000_000 if gran == 'line' else 30_000_000)
 
-    def oracle(self, call, want_trace=False):
-        k = call_key(call)
+    def oracle(self, call, want_trace=False, gran='line'):
+        """gran='line' is the reference (value, line-step count); gran='instr' only adds
+        instruction-level step counts and traces for placing instruction-level preemptions."""
+        k = call_key(call) if gran == 'line' else 'I' + call_key(call)
         if want_trace:
             r = self._tmemo.get(k)
             if r is None:
-                r = forks.fork_call(self._oracle_child, (call, True), 120.0)
+                r = forks.fork_call(self._oracle_child, (call, True, gran), 240.0)
                 self.oracle_forks += 1
-                if len(self._tmemo) > 64:
+                if len(self._tmemo) > 48:
                     self._tmemo.clear()
                 self._tmemo[k] = r
                 if k not in self._memo:
@@ -63,7 +65,7 @@ class Ctx:
             return r
         r = self._memo.get(k)
         if r is None:
-            r = forks.fork_call(self._oracle_child, (call, False), 120.0)
+            r = forks.fork_call(self._oracle_child, (call, False, gran), 240.0)
             self.oracle_forks += 1
             r = {x: r[x] for x in ('outcome', 'steps', 'args_kept')}
             if len(self._memo) > 200000:
